@@ -127,6 +127,8 @@ impl Compactor {
         }
 
         let mut builder = if distinct_value < row_count / 5 {
+            #[cfg(risinglight_verif)]
+            crate::verif::probe("compactor.dictionary-encoding");
             let mut column_options =
                 ColumnBuilderOptions::from_storage_options(&table.storage_options);
             column_options.encode_type = EncodeType::Dictionary;
